@@ -183,7 +183,7 @@ theorem C13_closed {w w' : World} {fuel : Nat} {allow : Bool} {g g' : Nat}
     obtain ⟨_, _, _, d, _, f⟩ := hres.cells i _ hin.1 hn
     exact ⟨f, fun gr hgr => by rw [hgr] at d; exact d⟩
   · intro v hv
-    obtain ⟨_, _, _, _, e, f⟩ := hres.cells i _ hin.1 hv
+    obtain ⟨_, _, _, _, e, f, _⟩ := hres.cells i _ hin.1 hv
     exact ⟨fun gr hgr => by rw [hgr] at e; exact e, fun p hp => by rw [hp] at f; exact f⟩
 
 /-- **C13_closed_model**: a cloned model never refers to a value of the original. -/
@@ -217,12 +217,12 @@ theorem C13_clone_pure_model {w w' : World} {fuel : Nat} {m : Nat} {r : Except E
 
 /-! ### C13_frame: edits of one copy leave the other copy's cells unchanged -/
 
-theorem FInv.restart {B : Nat → Prop} {wB : World} {s : St} (h : FInv B wB s) :
-    FInv B wB { w := s.w } := ⟨h.bound, h.same, h.sep⟩
+theorem FInv.restart {strict : Bool} {B : Nat → Prop} {wB : World} {s : St} (h : FInv strict B wB s) :
+    FInv strict B wB { w := s.w } := ⟨h.bound, h.same, h.sep⟩
 
-theorem runHistory_inv {B : Nat → Prop} {wB : World} :
-    ∀ (es : List Edit) (w : World), FInv B wB { w := w } → (∀ e ∈ es, ArgsOut B e) →
-      FInv B wB { w := (runHistory es w).2 }
+theorem runHistory_inv {strict : Bool} {B : Nat → Prop} {wB : World} :
+    ∀ (es : List Edit) (w : World), FInv strict B wB { w := w } → (∀ e ∈ es, ArgsOut B e) →
+      FInv strict B wB { w := (runHistory es w).2 }
   | [], _, h, _ => h
   | e :: es, w, h, ha => by
     have h1 := (applyEdit_frame e h (ha e List.mem_cons_self)).1
@@ -237,88 +237,238 @@ theorem runHistory_inv {B : Nat → Prop} {wB : World} :
 
 /-- **C13_frame** (general form).  Let `B` be any set of cells of a heap `w` such that no cell
     outside `B` has a pointer into `B` among the pointers editing calls follow (type, shape,
-    metadata containers, owning graph, node inputs, graph outputs).  Then for EVERY edit history
-    whose arguments are outside `B` — whatever the edits are, however many, whether they succeed
-    or raise half-way — every cell of `B` is afterwards exactly what it was. -/
+    metadata containers, owning graph, constant tensor, node inputs, graph outputs).  Then for EVERY
+    history of edits of the alphabet `Edit` whose arguments are outside `B` — whatever the edits
+    are, however many, whether they succeed or raise half-way — every cell of `B` is afterwards
+    exactly what it was.  The alphabet (Model/Clone.lean `Edit`, 31 editing calls): `Value.name=`
+    (incl. initializer rename and the write-through to the tensor's name), `.type=`, `.dtype=`,
+    `.type.denotation=`, `.shape=`, `.shape[i]=`, `.shape.set_denotation`, `.const_value=`,
+    `.doc_string=`; `metadata_props[k]=` / `del`, `meta[k]=` / `del`, `meta.invalidate` on values,
+    nodes, graphs, models; `Node.replace_input_with`, `.name=`, `.op_type=`, `.domain=`,
+    `.overload=`, `.version=`, `.doc_string=`, `.attributes[k]=` / `del`, `.device_configurations=`;
+    `Graph.name=`, `.doc_string=`, `.opset_imports[d]=`, `.remove(node)`, new node + `.append`,
+    `.outputs.append` / `.pop`; `Function.name=`; model header fields.  NOT in the alphabet (covered
+    by the oracle only as far as generated, or not at all): `graph.inputs` / initializer-dict edits,
+    `sort`, `insert_before/after`, `replace_all_uses_with`, `resize_inputs/outputs`, `model.functions`
+    edits, in-place mutation of shared `Attr` objects (D114). -/
 theorem C13_frame (B : Nat → Prop) (w : World) (es : List Edit)
     (hb : ∀ i, B i → i < w.length)
-    (hsep : ∀ (i : Nat) (c : Cell), ¬ B i → w[i]? = some c → CellOut B c)
+    (hsep : ∀ (i : Nat) (c : Cell), ¬ B i → w[i]? = some c → CellOut true B c)
     (hargs : ∀ e ∈ es, ∀ a ∈ e.args, ¬ B a) :
-    ∀ i, B i → (runHistory es w).2[i]? = w[i]? :=
-  (runHistory_inv (wB := w) es w ⟨hb, fun _ _ => rfl, hsep⟩ hargs).same
+    ∀ i, B i → (runHistory es w).2[i]? = w[i]? := by
+  intro i hi
+  have := (runHistory_inv (strict := true) (wB := w) es w
+    ⟨hb, fun _ _ => OptRel.refl _ _ _, hsep⟩ hargs).same i hi
+  simp only at this
+  cases h1 : w[i]? with
+  | none =>
+    rw [h1] at this
+    cases h2 : (runHistory es w).2[i]? with
+    | none => rfl
+    | some c => rw [h2] at this; exact this.elim
+  | some c0 =>
+    rw [h1] at this
+    cases h2 : (runHistory es w).2[i]? with
+    | none => rw [h2] at this; exact this.elim
+    | some c =>
+      rw [h2] at this
+      have : c = c0 := by simpa [OptRel, CellRel] using this
+      rw [this]
 
-theorem cellOut_of_cellOk {w0 : World} {lo hi : Nat} {c : Cell}
-    (h : CellOk w0 lo hi false c) : CellOut (fun i => i < lo) c := by
-  have opt : ∀ o, OptIn lo hi o → OptOut (fun i => i < lo) o := by
+/-- **C13_frame_weak** (general form when nodes outside `B` may consume values of `B`, as a clone
+    made with `allow_outer_scope_values=True` does).  `CellOut false` does not constrain node inputs.
+    Then every cell of `B` is afterwards what it was except for usage records: its content with the
+    users erased is unchanged, and so is the list of usage records made by nodes of `B`. -/
+theorem C13_frame_weak (B : Nat → Prop) (w : World) (es : List Edit)
+    (hb : ∀ i, B i → i < w.length)
+    (hsep : ∀ (i : Nat) (c : Cell), ¬ B i → w[i]? = some c → CellOut false B c)
+    (hargs : ∀ e ∈ es, ∀ a ∈ e.args, ¬ B a) :
+    ∀ i, B i → OptRel false B (w[i]?) ((runHistory es w).2[i]?) :=
+  (runHistory_inv (strict := false) (wB := w) es w ⟨hb, fun _ _ => OptRel.refl _ _ _, hsep⟩ hargs).same
+
+/-- the pre-existing cells a clone must leave alone: all of them except the tensor objects, which
+    clone and original share by design (`Value.name = ...` writes through to `const_value.name`:
+    recorded finding D113) -/
+def Protected (w : World) (i : Nat) : Prop := i < w.length ∧ ¬ ConstTarget w i
+
+theorem cellOut_of_cellOk {w0 : World} {hi : Nat} {allow : Bool} {c : Cell}
+    (h : CellOk w0 w0.length hi allow c) : CellOut (!allow) (Protected w0) c := by
+  have opt : ∀ o, OptIn w0.length hi o → OptOut (Protected w0) o := by
     intro o ho
     cases o with
     | none => trivial
-    | some x => exact Nat.not_lt.mpr ho.1
+    | some x => exact fun hp => Nat.not_lt.mpr ho.1 hp.1
+  have nin : ∀ x, In w0.length hi x → ¬ Protected w0 x := fun x hx hp => Nat.not_lt.mpr hx.1 hp.1
   cases c with
   | val v =>
-    obtain ⟨a, b, c, d, e, _⟩ := h
-    exact ⟨opt _ a, opt _ b, Nat.not_lt.mpr c.1, Nat.not_lt.mpr d.1, opt _ e⟩
+    obtain ⟨a, b, c, d, e, _, k⟩ := h
+    refine ⟨opt _ a, opt _ b, nin _ c, nin _ d, opt _ e, ?_⟩
+    cases hc : v.const with
+    | none => trivial
+    | some t =>
+      rw [hc] at k
+      rcases k with k | k
+      · exact fun hp => Nat.not_lt.mpr k hp.1
+      · exact fun hp => hp.2 k
   | node n =>
     obtain ⟨_, b, c, _, _, f⟩ := h
-    exact ⟨fun v hv => Nat.not_lt.mpr (f rfl v hv).1, Nat.not_lt.mpr b.1, Nat.not_lt.mpr c.1⟩
+    exact ⟨fun hs v hv => nin _ (f (by simpa using hs) v hv), nin _ b, nin _ c⟩
   | graph g =>
     obtain ⟨_, b, _, _, e, f⟩ := h
-    exact ⟨fun v hv => Nat.not_lt.mpr (b v hv).1, Nat.not_lt.mpr e.1, Nat.not_lt.mpr f.1⟩
+    exact ⟨fun v hv => nin _ (b v hv), nin _ e, nin _ f⟩
   | model m =>
     obtain ⟨_, _, c, d⟩ := h
-    exact ⟨Nat.not_lt.mpr c.1, Nat.not_lt.mpr d.1⟩
+    exact ⟨nin _ c, nin _ d⟩
   | attr _ => trivial
   | func _ => trivial
   | type _ => trivial
   | shape _ => trivial
   | dict _ => trivial
+  | tensor _ => trivial
+
+theorem constTarget_tensor {w : World} (hwf : wellFormed w = true) {i : Nat} (h : ConstTarget w i) :
+    ∃ nm, w[i]? = some (.tensor nm) := by
+  obtain ⟨j, vs, hj, hc⟩ := h
+  unfold wellFormed at hwf
+  rw [Bool.and_eq_true] at hwf
+  have := hwf.2
+  unfold constTyped at this
+  rw [List.all_eq_true] at this
+  have := this _ (List.mem_of_getElem? hj)
+  simp only [hc] at this
+  split at this
+  · next nm h => exact ⟨nm, h⟩
+  · cases this
 
 /-- editing the clone never changes the original: shared statement for the three entry points -/
-theorem frame_clone_edited {w w' : World} (hres : CloneResult w false w') (es : List Edit)
-    (hargs : ∀ e ∈ es, ∀ a ∈ e.args, w.length ≤ a) :
-    ∀ i, i < w.length → (runHistory es w').2[i]? = w[i]? := by
+theorem frame_clone_edited {w w' : World} (hwf : wellFormed w = true) (hres : CloneResult w false w')
+    (es : List Edit) (hargs : ∀ e ∈ es, ∀ a ∈ e.args, ¬ Protected w a) :
+    ∀ i, Protected w i → (runHistory es w').2[i]? = w[i]? := by
   intro i hi
-  have := C13_frame (fun i => i < w.length) w' es
-    (fun i hi => Nat.lt_of_lt_of_le hi hres.grows)
-    (fun i c hni hc => cellOut_of_cellOk (hres.cells i c (Nat.not_lt.mp hni) hc))
-    (fun e he a ha => Nat.not_lt.mpr (hargs e he a ha)) i hi
+  have hsep : ∀ (i : Nat) (c : Cell), ¬ Protected w i → w'[i]? = some c → CellOut true (Protected w) c := by
+    intro i c hni hc
+    rcases Nat.lt_or_ge i w.length with hlt | hge
+    · -- a pre-existing tensor cell (the only unprotected pre-existing cells): unchanged by cloning
+      have hct : ConstTarget w i := Classical.byContradiction (fun hn => hni ⟨hlt, hn⟩)
+      obtain ⟨nm, hnm⟩ := constTarget_tensor hwf hct
+      have := hres.oldEq rfl i _ hnm
+      rw [hc] at this
+      cases this
+      trivial
+    · exact cellOut_of_cellOk (allow := false) (hres.cells i c hge hc)
+  have := C13_frame (Protected w) w' es (fun i hi => Nat.lt_of_lt_of_le hi.1 hres.grows) hsep hargs i hi
   rw [this]
-  exact hres.oldEq rfl i _ (List.getElem?_eq_getElem hi) ▸ (List.getElem?_eq_getElem hi).symm ▸ rfl
+  exact hres.oldEq rfl i _ (List.getElem?_eq_getElem hi.1) ▸ (List.getElem?_eq_getElem hi.1).symm ▸ rfl
 
 /-- **C13_frame_clone_edited** (`Graph.clone()`, `GraphView.clone()`).  After cloning, every
     history of edits applied to objects that did not exist before the clone (the clone's objects and
     whatever the edits create) leaves every pre-existing cell exactly as it was before cloning. -/
 theorem C13_frame_clone_edited {w w' : World} {fuel g : Nat} {r : Except Err Nat}
+    (hwf : wellFormed w = true)
     (h : run (graphClone fuel false g) w = (r, w')) (es : List Edit)
-    (hargs : ∀ e ∈ es, ∀ a ∈ e.args, w.length ≤ a) :
-    ∀ i, i < w.length → (runHistory es w').2[i]? = w[i]? :=
-  frame_clone_edited (CloneResult.of_good (fun s hI => graphClone_good fuel g hI) h).1 es hargs
+    (hargs : ∀ e ∈ es, ∀ a ∈ e.args, ¬ Protected w a) :
+    ∀ i, Protected w i → (runHistory es w').2[i]? = w[i]? :=
+  frame_clone_edited hwf (CloneResult.of_good (fun s hI => graphClone_good fuel g hI) h).1 es hargs
 
 /-- **C13_frame_function** (`Function.clone()`). -/
 theorem C13_frame_function {w w' : World} {fuel f : Nat} {r : Except Err Nat}
+    (hwf : wellFormed w = true)
     (h : run (funcClone fuel f) w = (r, w')) (es : List Edit)
-    (hargs : ∀ e ∈ es, ∀ a ∈ e.args, w.length ≤ a) :
-    ∀ i, i < w.length → (runHistory es w').2[i]? = w[i]? :=
-  frame_clone_edited (CloneResult.of_good (fun s hI => funcClone_good fuel f hI) h).1 es hargs
+    (hargs : ∀ e ∈ es, ∀ a ∈ e.args, ¬ Protected w a) :
+    ∀ i, Protected w i → (runHistory es w').2[i]? = w[i]? :=
+  frame_clone_edited hwf (CloneResult.of_good (fun s hI => funcClone_good fuel f hI) h).1 es hargs
 
-/-- **C13_functionalize** (`passes.functionalize(p)(model)` = `p(model.clone())`,
-    `_pass_infra.py` 331-353).  Whatever editing calls the wrapped pass performs on the objects of
-    the clone it is given (and on objects it creates), in whatever order, the input model and
-    everything else that existed before the call is unchanged — cell for cell. -/
+/-- **C13_functionalize**.  `functionalize fuel pass m w` is the model of
+    `passes.functionalize(p)(model)` = `p(model.clone())` (`_pass_infra.py` 331-353); the wrapped
+    in-place pass `p` is ANY function from the clone it is handed (and the heap it finds) to the
+    history of editing calls it performs.  If those calls are applied to objects that did not exist
+    before the call (the clone's objects, objects the pass creates) — which is all a pass can reach
+    from the model it is given, by `C13_closed_model` — then the input model and everything else that
+    existed before is unchanged, cell for cell (except the name of shared tensor objects, D113),
+    whether cloning succeeds or raises. -/
 theorem C13_functionalize {w w' : World} {fuel m : Nat} {r : Except Err Nat}
-    (h : run (modelClone fuel m) w = (r, w')) (pass : List Edit)
-    (hargs : ∀ e ∈ pass, ∀ a ∈ e.args, w.length ≤ a) :
-    ∀ i, i < w.length → (runHistory pass w').2[i]? = w[i]? :=
-  frame_clone_edited (CloneResult.of_good (fun s hI => modelClone_good fuel m hI) h).1 pass hargs
+    (pass : Nat → World → List Edit) (hwf : wellFormed w = true)
+    (h : functionalize fuel pass m w = (r, w'))
+    (hargs : ∀ m' w1, ∀ e ∈ pass m' w1, ∀ a ∈ e.args, ¬ Protected w a) :
+    ∀ i, Protected w i → w'[i]? = w[i]? := by
+  unfold functionalize at h
+  rcases hrun : run (modelClone fuel m) w with ⟨r1, w1⟩
+  rw [hrun] at h
+  have hres := (CloneResult.of_good (fun s hI => modelClone_good fuel m hI) hrun).1
+  cases r1 with
+  | ok m' =>
+    simp only [Prod.mk.injEq] at h
+    obtain ⟨_, rfl⟩ := h
+    exact frame_clone_edited hwf hres (pass m' w1) (hargs m' w1)
+  | error e =>
+    simp only [Prod.mk.injEq] at h
+    obtain ⟨_, rfl⟩ := h
+    intro i hi
+    exact hres.oldEq rfl i _ (List.getElem?_eq_getElem hi.1) ▸ (List.getElem?_eq_getElem hi.1).symm ▸ rfl
+
+theorem usesByB_of_oldSame {w : World} {c0 c : Cell} (h : OldSame w.length c0 c) :
+    usesByB (Protected w) c = usesByB (Protected w) c0 := by
+  have key : ∀ (l : List (Nat × Nat)),
+      l.filter (fun u => @decide (Protected w u.1) (Classical.propDecidable _)) =
+      (l.filter (fun u => decide (u.1 < w.length))).filter
+        (fun u => @decide (Protected w u.1) (Classical.propDecidable _)) := by
+    intro l
+    rw [List.filter_filter]
+    apply List.filter_congr
+    intro u _
+    by_cases hu : Protected w u.1
+    · simp [hu, hu.1]
+    · simp [hu]
+  unfold usesByB
+  rw [key c.usesOf, key c0.usesOf, h.2]
+
+/-- **C13_frame_clone_edited_outer** (`Graph.clone(allow_outer_scope_values=True)`).  The clone
+    consumes outer-scope values of the original's world, so editing it may add or remove ITS OWN
+    usage records on those values — and nothing else: after cloning and any history of edits on
+    objects that did not exist before, every protected pre-existing cell has the same content with
+    the users erased, and the same usage records by pre-existing nodes, as before cloning. -/
+theorem C13_frame_clone_edited_outer {w w' : World} {fuel g : Nat} {r : Except Err Nat}
+    (hwf : wellFormed w = true)
+    (h : run (graphClone fuel true g) w = (r, w')) (es : List Edit)
+    (hargs : ∀ e ∈ es, ∀ a ∈ e.args, ¬ Protected w a) :
+    ∀ (i : Nat) (c0 : Cell), Protected w i → w[i]? = some c0 →
+      ∃ c, (runHistory es w').2[i]? = some c ∧ c.eraseUses = c0.eraseUses ∧
+        usesByB (Protected w) c = usesByB (Protected w) c0 := by
+  obtain ⟨hres, _⟩ := CloneResult.of_good (fun s hI => graphClone_good (allow := true) fuel g hI) h
+  intro i c0 hi hc0
+  have hsep : ∀ (i : Nat) (c : Cell), ¬ Protected w i → w'[i]? = some c →
+      CellOut false (Protected w) c := by
+    intro i c hni hc
+    rcases Nat.lt_or_ge i w.length with hlt | hge
+    · have hct : ConstTarget w i := Classical.byContradiction (fun hn => hni ⟨hlt, hn⟩)
+      obtain ⟨nm, hnm⟩ := constTarget_tensor hwf hct
+      obtain ⟨c', h1, h2⟩ := hres.old i _ hnm
+      rw [hc] at h1
+      cases h1
+      have := h2.1
+      cases c <;> simp [Cell.eraseUses] at this
+      trivial
+    · exact cellOut_of_cellOk (allow := true) (hres.cells i c hge hc)
+  have hrel := C13_frame_weak (Protected w) w' es (fun i hi => Nat.lt_of_lt_of_le hi.1 hres.grows)
+    hsep hargs i hi
+  obtain ⟨c1, hc1, hold⟩ := hres.old i c0 hc0
+  rw [hc1] at hrel
+  cases hfin : (runHistory es w').2[i]? with
+  | none => rw [hfin] at hrel; exact hrel.elim
+  | some c =>
+    rw [hfin] at hrel
+    have hrel' : c.eraseUses = c1.eraseUses ∧ usesByB (Protected w) c = usesByB (Protected w) c1 := by
+      simpa [OptRel, CellRel] using hrel
+    exact ⟨c, rfl, hrel'.1.trans hold.1, hrel'.2.trans (usesByB_of_oldSame hold)⟩
 
 theorem followed_oldSame {n0 : Nat} {c0 c : Cell} (h : OldSame n0 c0 c) : followed c = followed c0 := by
   have := h.1
   cases c <;> cases c0 <;> simp [Cell.eraseUses] at this <;> try (subst this; rfl)
   next v v0 =>
-    obtain ⟨_, _, _, _, e5, _, _, _, e1, e2, _, e3, e4⟩ := this
-    simp [followed, e1, e2, e3, e4, e5]
+    obtain ⟨_, _, _, _, e5, _, _, _, e1, e2, e6, e3, e4⟩ := this
+    simp [followed, e1, e2, e3, e4, e5, e6]
 
-theorem cellOut_of_followed {B : Nat → Prop} {c : Cell} (h : ∀ p ∈ followed c, ¬ B p) : CellOut B c := by
+theorem cellOut_of_followed {B : Nat → Prop} {c : Cell} (h : ∀ p ∈ followed c, ¬ B p) : CellOut true B c := by
   have opt : ∀ o : Option Nat, (∀ p ∈ o.toList, ¬ B p) → OptOut B o := by
     intro o ho
     cases o with
@@ -328,10 +478,11 @@ theorem cellOut_of_followed {B : Nat → Prop} {c : Cell} (h : ∀ p ∈ followe
   | val v =>
     simp only [followed, List.mem_append, List.mem_cons] at h
     exact ⟨opt _ (fun p hp => h p (by simp [hp])), opt _ (fun p hp => h p (by simp [hp])),
-      h _ (by simp), h _ (by simp), opt _ (fun p hp => h p (by simp [hp]))⟩
+      h _ (by simp), h _ (by simp), opt _ (fun p hp => h p (by simp [hp])),
+      opt _ (fun p hp => h p (by simp [hp]))⟩
   | node n =>
     simp only [followed, List.mem_append, List.mem_cons, List.mem_filterMap, id] at h
-    exact ⟨fun v hv => h v (.inl ⟨some v, hv, rfl⟩), h _ (by simp), h _ (by simp)⟩
+    exact ⟨fun _ v hv => h v (.inl ⟨some v, hv, rfl⟩), h _ (by simp), h _ (by simp)⟩
   | graph g =>
     simp only [followed, List.mem_append, List.mem_cons] at h
     exact ⟨fun v hv => h v (.inl hv), h _ (by simp), h _ (by simp)⟩
@@ -343,12 +494,13 @@ theorem cellOut_of_followed {B : Nat → Prop} {c : Cell} (h : ∀ p ∈ followe
   | type _ => trivial
   | shape _ => trivial
   | dict _ => trivial
+  | tensor _ => trivial
 
 theorem wellFormed_spec {w : World} (h : wellFormed w = true) {i : Nat} {c : Cell}
     (hc : w[i]? = some c) : ∀ p ∈ followed c, p < w.length := by
   unfold wellFormed at h
-  rw [List.all_eq_true] at h
-  have := h c (List.mem_of_getElem? hc)
+  rw [Bool.and_eq_true, List.all_eq_true] at h
+  have := h.1 c (List.mem_of_getElem? hc)
   rw [List.all_eq_true] at this
   intro p hp
   simpa using this p hp
@@ -450,14 +602,17 @@ theorem C13_faithful_model {w w' : World} {fuel : Nat} {m m' : Nat}
   exact hq
 
 
-/-- **C13_faithful_serialize**: `serialize (clone g) = serialize g`.  `serGraph k w g` is the model
-    of what the serializer writes for graph `g` of heap `w` (Lemmas/CloneSer.lean: names, doc
-    strings, opset imports, value infos with type / shape / metadata, initializers, nodes with input
-    and output names, attributes incl. nested graphs, device annotations), defined when the graph can
-    be serialized (attribute containers and initializer names consistent, depth ≤ `k`).  Whatever the
-    original serializes to BEFORE cloning, the clone serializes to the same thing afterwards, and so
-    does the original. -/
-theorem C13_faithful_serialize {w w' : World} {fuel : Nat} {allow : Bool} {g g' : Nat}
+/-- **C13_faithful_observe** (observational equality, graph / graph view).  `serGraph k w g` is this
+    check's OWN observation function (Model/Clone.lean): the tree of everything a serializer can read
+    of graph `g` in heap `w` — names, doc strings, opset imports, value infos with type / shape /
+    metadata, initializers, nodes with input and output names, attributes incl. nested graphs, device
+    annotations — defined when the containers are consistent (every attribute filed under its own
+    name once, initializer names present and distinct, depth ≤ `k`).  It is NOT the model of
+    `serde.py` (properties C02/C03 own that) and is not compared with it field by field; the run
+    reports where its definedness differs from the real serializer's and why.  Whatever the original
+    observes to BEFORE cloning, the clone observes to the same thing afterwards, and so does the
+    original. -/
+theorem C13_faithful_observe {w w' : World} {fuel : Nat} {allow : Bool} {g g' : Nat}
     (h : run (graphClone fuel allow g) w = (.ok g', w')) (k : Nat) (y : SGraph)
     (hy : serGraph k w g = some y) :
     serGraph k w' g' = some y ∧ serGraph k w' g = some y := by
@@ -520,6 +675,160 @@ theorem C13_closed_outer {w w' : World} {fuel : Nat} {allow : Bool} {g g' : Nat}
     exact ⟨n, hnm, by rw [cNode_of hx]; exact hvx⟩
   · exact .inl hge
 
+
+/-! ### C13_raises_iff_inputs: exactly when a node input makes the clone raise -/
+
+/-- what `mapInputs` (the node-input loop of `clone_node`, `_cloner.py` 171-193) answers -/
+def mapInputsPure (allow : Bool) (s : St) : List (Option Nat) → Except Err (List (Option Nat))
+  | [] => .ok []
+  | none :: rest => (mapInputsPure allow s rest).map (none :: ·)
+  | some v :: rest =>
+    match s.vm.lookup v with
+    | some v' => (mapInputsPure allow s rest).map (some v' :: ·)
+    | none =>
+      if allow then
+        if s.pend.contains v then .error (.raised "value defined by a later node of the graph being cloned")
+        else (mapInputsPure allow s rest).map (some v :: ·)
+      else .error (.raised "outer-scope value")
+
+theorem mapInputs_eq_pure (allow : Bool) (s : St) :
+    ∀ l, mapInputs allow l s = (mapInputsPure allow s l, s)
+  | [] => rfl
+  | none :: rest => by
+    have ih := mapInputs_eq_pure allow s rest
+    unfold mapInputs mapInputsPure
+    show M.bind (mapInputs allow rest) _ s = _
+    unfold M.bind
+    rw [ih]
+    cases mapInputsPure allow s rest <;> rfl
+  | some v :: rest => by
+    have ih := mapInputs_eq_pure allow s rest
+    unfold mapInputs mapInputsPure
+    show M.bind (vmGet v) _ s = _
+    unfold M.bind vmGet
+    simp only
+    cases hlk : s.vm.lookup v with
+    | some v' =>
+      simp only
+      show M.bind (mapInputs allow rest) _ s = _
+      unfold M.bind
+      rw [ih]
+      cases mapInputsPure allow s rest <;> rfl
+    | none =>
+      simp only
+      cases allow with
+      | false => rfl
+      | true =>
+        simp only [if_true]
+        show M.bind (pendHas v) _ s = _
+        unfold M.bind pendHas
+        simp only
+        cases hp : s.pend.contains v with
+        | true => rfl
+        | false =>
+          simp only [Bool.false_eq_true, if_false]
+          show M.bind (mapInputs true rest) _ s = _
+          unfold M.bind
+          rw [ih]
+          cases mapInputsPure true s rest <;> rfl
+
+/-- an input the cloner cannot resolve: not bound in the value map and either outer-scope values
+    are not allowed, or it is the output of a node of the graph that is still to be cloned -/
+def Unresolved (allow : Bool) (s : St) (l : List (Option Nat)) : Prop :=
+  ∃ v, some v ∈ l ∧ s.vm.lookup v = none ∧ (allow = false ∨ v ∈ s.pend)
+
+/-- **C13_raises_iff_inputs**.  The node-input loop of `clone_node`, run on the inputs `l` of a
+    node in cloner state `s`, (1) never changes the state; (2) raises if and only if some input is
+    unresolved: unbound in the value map and (`allow_outer_scope_values` is `False`, or the value
+    is a pending output of a graph being cloned: use before definition); (3) otherwise returns every
+    input replaced by its binding, unbound ones passed through.  So the two "clear errors" of the
+    cloner are raised exactly for the references it cannot resolve, and never otherwise. -/
+theorem C13_raises_iff_inputs (allow : Bool) (s : St) (l : List (Option Nat)) :
+    (mapInputs allow l s).2 = s ∧
+    (Unresolved allow s l ↔ ∃ why, (mapInputs allow l s).1 = .error (.raised why)) ∧
+    (¬ Unresolved allow s l →
+      (mapInputs allow l s).1 = .ok (l.map (fun o => o.map (fun v => (s.vm.lookup v).getD v)))) := by
+  rw [mapInputs_eq_pure]
+  refine ⟨rfl, ?_⟩
+  simp only
+  induction l with
+  | nil =>
+    refine ⟨⟨?_, ?_⟩, fun _ => rfl⟩
+    · rintro ⟨v, hv, _⟩; cases hv
+    · rintro ⟨why, hw⟩; cases hw
+  | cons x rest ih =>
+    obtain ⟨ih1, ih2⟩ := ih
+    have lift : ∀ (f : Option Nat),
+        ((∃ why, (mapInputsPure allow s rest).map (f :: ·) = .error (.raised why)) ↔
+          ∃ why, mapInputsPure allow s rest = .error (.raised why)) := by
+      intro f
+      cases mapInputsPure allow s rest with
+      | ok r => simp [Except.map]
+      | error e => simp [Except.map]
+    have liftok : ∀ (f : Option Nat) (r : List (Option Nat)), mapInputsPure allow s rest = .ok r →
+        (mapInputsPure allow s rest).map (f :: ·) = .ok (f :: r) := by
+      intro f r h; rw [h]; rfl
+    cases x with
+    | none =>
+      have hu : Unresolved allow s (none :: rest) ↔ Unresolved allow s rest := by
+        constructor
+        · rintro ⟨v, hv, h⟩
+          rcases List.mem_cons.mp hv with h' | h'
+          · cases h'
+          · exact ⟨v, h', h⟩
+        · rintro ⟨v, hv, h⟩; exact ⟨v, List.mem_cons_of_mem _ hv, h⟩
+      unfold mapInputsPure
+      refine ⟨by rw [hu, lift]; exact ih1, fun hn => ?_⟩
+      rw [liftok none _ (ih2 (fun h => hn (hu.mpr h)))]; rfl
+    | some v =>
+      unfold mapInputsPure
+      cases hlk : s.vm.lookup v with
+      | some v' =>
+        have hu : Unresolved allow s (some v :: rest) ↔ Unresolved allow s rest := by
+          constructor
+          · rintro ⟨x, hx, h⟩
+            rcases List.mem_cons.mp hx with h' | h'
+            · cases h'; rw [hlk] at h; cases h.1
+            · exact ⟨x, h', h⟩
+          · rintro ⟨x, hx, h⟩; exact ⟨x, List.mem_cons_of_mem _ hx, h⟩
+        simp only
+        refine ⟨by rw [hu, lift]; exact ih1, fun hn => ?_⟩
+        rw [liftok (some v') _ (ih2 (fun h => hn (hu.mpr h)))]
+        simp [hlk]
+      | none =>
+        simp only
+        cases hallow : allow with
+        | false =>
+          simp only [Bool.false_eq_true, if_false]
+          subst hallow
+          exact ⟨⟨fun _ => ⟨_, rfl⟩, fun _ => ⟨v, List.mem_cons_self, hlk, .inl rfl⟩⟩,
+            fun hn => absurd ⟨v, List.mem_cons_self, hlk, .inl rfl⟩ hn⟩
+        | true =>
+          subst hallow
+          simp only [if_true]
+          cases hp : s.pend.contains v with
+          | true =>
+            simp only [if_true]
+            have hvp : v ∈ s.pend := by simpa using hp
+            exact ⟨⟨fun _ => ⟨_, rfl⟩, fun _ => ⟨v, List.mem_cons_self, hlk, .inr hvp⟩⟩,
+              fun hn => absurd ⟨v, List.mem_cons_self, hlk, .inr hvp⟩ hn⟩
+          | false =>
+            simp only [Bool.false_eq_true, if_false]
+            have hvp : v ∉ s.pend := by simpa using hp
+            have hu : Unresolved true s (some v :: rest) ↔ Unresolved true s rest := by
+              constructor
+              · rintro ⟨x, hx, h⟩
+                rcases List.mem_cons.mp hx with h' | h'
+                · cases h'
+                  rcases h.2 with h2 | h2
+                  · cases h2
+                  · exact absurd h2 hvp
+                · exact ⟨x, h', h⟩
+              · rintro ⟨x, hx, h⟩; exact ⟨x, List.mem_cons_of_mem _ hx, h⟩
+            refine ⟨by rw [hu, lift]; exact ih1, fun hn => ?_⟩
+            rw [liftok (some v) _ (ih2 (fun h => hn (hu.mpr h)))]
+            simp [hlk]
+
 /-! ### non-vacuity: the hypotheses are satisfiable and D33 is a real counterexample to the
 unconditional statement for `allow = true` -/
 
@@ -539,7 +848,7 @@ def exWorld : World := [
   .dict {}, .dict {},
   .type { dtype := 1 } ]
 
-/-- the hypothesis `serGraph k w g = some y` of C13_faithful_serialize is satisfiable -/
+/-- the hypothesis `serGraph k w g = some y` of C13_faithful_observe is satisfiable -/
 example : (serGraph 3 exWorld 0).isSome = true := by decide +kernel
 
 def typeOfDtype (w : World) : List Nat :=
